@@ -34,6 +34,9 @@ def main():
     pid, d = sys.argv[1], sys.argv[2].rstrip('/')
     tier = 'quick'
     only = None
+    base = 0
+    if '--base' in sys.argv:
+        base = int(sys.argv[sys.argv.index('--base') + 1])
     if '--tier' in sys.argv:
         tier = sys.argv[sys.argv.index('--tier') + 1]
     if '--only' in sys.argv:
@@ -103,7 +106,7 @@ def main():
                 meta = json.load(f)
         except Exception:
             pass
-        n = re.sub(r'\D', '', b) or '0'
+        n = str(base + int(re.sub(r'\D', '', b) or '0'))
         dest = os.path.join(HERE, 'seeded', '{}-{}'.format(pid, n))
         os.makedirs(dest, exist_ok=True)
         shutil.copy(patch, os.path.join(dest, 'patch.diff'))
